@@ -256,11 +256,12 @@ where
 }
 
 /// Replays one recorded schedule twice; returns the two outcomes.
-pub fn replay_twice<F>(choices: &[usize], workers: usize, body: F) -> (Option<Result<String, String>>, Option<Result<String, String>>)
+pub fn replay_twice<F>(choices: &[usize], workers: usize, body: F) -> (Option<Result<String, String>>, Option<Result<String, String>>, bool)
 where
     F: Fn() -> Result<String, String> + Send + Sync + Clone + 'static,
 {
     let mut res = Vec::new();
+    let mut diverged = false;
     for _ in 0..2 {
         let shared = Arc::new(Mutex::new(Shared::default()));
         let slot: Arc<Mutex<Option<Result<String, String>>>> = Arc::new(Mutex::new(None));
@@ -272,9 +273,15 @@ where
                 *s2.lock().unwrap() = Some(b());
             })
         }));
+        let sh = shared.lock().unwrap();
+        // the recorded schedule does not fit this program (different scheduling points):
+        // either reported by the scheduler or visible as unused / missing choices
+        if sh.divergence.is_some() || sh.current.len() != choices.len() {
+            diverged = true;
+        }
         res.push(slot.lock().unwrap().clone());
     }
-    (res[0].clone(), res[1].clone())
+    (res[0].clone(), res[1].clone(), diverged)
 }
 
 // ---------------------------------------------------------------------------
@@ -632,7 +639,17 @@ pub fn replay_failure(file: &Value) -> i32 {
         Some(s) => {
             let choices: Vec<usize> = s.iter().filter_map(|x| x.as_u64().map(|x| x as usize)).collect();
             let j2 = job.clone();
-            let (a, b) = replay_twice(&choices, workers, move || j2.run());
+            let (a, b, diverged) = replay_twice(&choices, workers, move || j2.run());
+            if diverged {
+                // the code changed since the schedule was recorded: explore the job again instead
+                let j3 = job.clone();
+                let ex = explore(3, workers, 500_000, move || j3.run());
+                println!("the recorded schedule does not fit the current code (its scheduling points differ); re-explored {} instead: {} schedules, {} outcome(s), {} failure(s)", job.name(), ex.schedules, ex.outcomes.len(), ex.failures.len());
+                for (m, sch) in &ex.failures {
+                    println!("  {m}\n  schedule {sch:?}");
+                }
+                return i32::from(ex.outcomes.len() > 1 || !ex.failures.is_empty());
+            }
             println!("replay of {} with {workers} workers under schedule {choices:?}:\n  run 1: {a:?}\n  run 2: {b:?}", job.name());
             if a != b {
                 eprintln!("gv: the two replays of one schedule disagree (uncontrolled nondeterminism): machinery error");
